@@ -231,6 +231,13 @@ impl Actor for ScriptActor {
             return;
         }
         let st_in = **state;
+        // HEARTBEAT pattern: the handler leaves the state untouched (it stays `Cow::Borrowed`) and only re-arms the timer
+        // that just fired. The renewal is a command like any other: the timer must fire again no earlier than the new delay.
+        if *timer == 2 && st_in % 3 == 0 {
+            let d = (40 + (st_in % 7) as u64 * 5) * 1_000_000;
+            self.emit(format!("timeout {} {} {}", t, st_in, timer), st_in, vec![Cm::Set(2, d, d)], o);
+            return;
+        }
         let (st, cmds) = self.behave(2, st_in, *timer as u64, 0);
         self.emit(format!("timeout {} {} {}", t, st_in, timer), st, cmds, o);
         *state.to_mut() = st;
